@@ -135,6 +135,19 @@ def numVal (t : List Char) : Py.Val := if litKind t = 1 then .int t else .float 
 /-- the bool a BOOL spelling stands for -/
 def boolOf (t : List Char) : Option Bool := (boolSpellings.find? (fun sp => sp.1 == t)).map (·.2)
 
+/-- decode a quoted string literal: its quote character and its content (`\\q` → `q`), provided the
+text is exactly `encode q s` for a string `s` that does not end in a backslash -/
+def strLit? (t : List Char) : Option (Char × List Char) :=
+  match t with
+  | q :: r =>
+      if (q = '"' ∨ q = '\'') ∧ r.getLast? = some q then
+        if escape q (Py.replace r.dropLast ['\\', q] [q]) = r.dropLast ∧
+            noTrailingBackslash (Py.replace r.dropLast ['\\', q] [q]) then
+          some (q, Py.replace r.dropLast ['\\', q] [q])
+        else none
+      else none
+  | [] => none
+
 /-- is the text `t` a literal of the form the theorems about `ty` quantify over? -/
 def litOk (ty : BaseType) (t : List Char) : Bool :=
   match ty with
@@ -143,7 +156,7 @@ def litOk (ty : BaseType) (t : List Char) : Bool :=
   | .STRICTFLOAT => litKind t == 2
   | .FLOAT => (floatLit? t).isSome
   | .BOOL => (boolOf t).isSome
-  | .STRING => false
+  | .STRING => (strLit? t).isSome
 
 /-- the value `ty` is to give to the literal text `t` -/
 def litVal (ty : BaseType) (t : List Char) : Py.Val :=
@@ -151,12 +164,14 @@ def litVal (ty : BaseType) (t : List Char) : Py.Val :=
   | .INT => .int t
   | .NUMBER => numVal t
   | .BOOL => .bool ((boolOf t).getD false)
+  | .STRING => .str (((strLit? t).map (·.2)).getD [])
   | _ => .float t
 
-/-- whitespace before every literal, literals of the right form, separated, trailing whitespace
-(driver op `tokens`, field `items`: the harness's own idea of "this case satisfies the property's
+/-- whitespace before every literal, literals of the right form, separated (strings may touch), trailing
+whitespace (driver op `tokens`, field `items`: the harness's own idea of "this case satisfies the property's
 hypothesis" is compared with this) -/
 def lineHyp (ty : BaseType) (items : List (Item (List Char))) (tail : List Char) : Bool :=
-  items.all (fun i => i.ws.all isWs && litOk ty i.lit) && items.tail.all (fun i => !i.ws.isEmpty) && tail.all isWs
+  items.all (fun i => i.ws.all isWs && litOk ty i.lit) &&
+    (ty == .STRING || items.tail.all (fun i => !i.ws.isEmpty)) && tail.all isWs
 
 end BaseTypes
